@@ -51,6 +51,10 @@ CHECKS = {
                 text="Proved for all complete operations: a value port is addressed by its offset = its position in the operation's signature; the static function / constant input sits immediately after the value inputs (Call._function_port_offset and the port kinds of Call / LoadFunc / LoadConst, shared with C06); a state-order edge is addressed at the first port after those, in both directions, by _order_port_offset and Hugr._constrain_offset - their postconditions mention the signature only, never the number of connected ports (a genuine defect here was repaired earlier). Index sanity of whole documents (node 0 root and own parent, parents listed earlier, endpoints exist) after deletions and index reuse, and validity of every emitted HUGR / package / extension document against the published strict schema (jsonschema) are decided by a bounded run - not proved; hence category other.",
                 note=TRUST + "; sig_in/sig_out ghost definition (interface contract, C06); AsExtOp.outer_signature trusted; incomplete operations outside the domain (may_raise).",
                 technique="contract-based deductive verification of the port-addressing functions (z3, cross-checked) + labelled bounded run with an independent oracle and JSON-schema validation of emitted documents"),
+    "C08": dict(cat="other", design="5/C08",
+                text="Proved for all builders, wires and argument counts from the real source of build/dfg.py: insert_nested / insert_cfg / insert_conditional / insert_tail_loop (through _insert_nested_impl, each caller checked against the callee's contract) perform exactly one insertion of the given builder's HUGR under the inserting builder's own parent node, return the image of its root under the returned mapping, and wire that image to exactly the given wires in the stated order (branching wire first; loop-only inputs before the rest). The isomorphism clause of Hugr.insert_hugr (operations, hierarchy with child order, metadata, output counts, every link with offsets and multiplicity incl. order links, A untouched, B unmodified) is decided by a bounded run over pairs (A, B, parent) whose B carry mutation histories (deleted nodes, reused indices below their parent's, multi-links, order links) with every live node of A tried as parent - not proved; hence category other. One genuine defect was repaired.",
+                note=TRUST + "; Hugr.insert_hugr assumed (bounded-checked), DfBase._wire_up trusted as call recorder (ghost traces).",
+                technique="contract-based deductive verification of the insert_* wrappers over ghost call traces (z3, cross-checked) + labelled bounded isomorphism check of insert_hugr"),
     "C04": dict(cat="other", design="5/C04",
                 text="The graph store is verified against a sequence-per-port view: sub-offset allocation, add_link (the link is appended exactly once to the sequences of both ports; BiMap inverse and contiguity invariants preserved; counts = max), add_order_link (idempotent; order ports are not counted), linked_ports / has_link / order-link listings / outgoing_links / incoming_links as functions of the view (one entry per port whatever the rest of the graph holds), lookup (KeyError exactly for non-live indices), iteration (live indices ascending), counts, children, add_node / add_const (new index was free, every other node keeps index and data), _update_port_count. delete_link, delete_node and insert_hugr are decided by a bounded model-based run of the real code against the sequential multigraph model of the statement (all queries compared after every operation) - not proved; hence category other. Three genuine defects were found and repaired.",
                 note=TRUST + "; BiMap through its C18 contracts; ghost cnt defined by an assumed instance; generator functions eager; _add_node verified in the thorough tier only.",
